@@ -12,7 +12,8 @@ import random
 import struct
 from typing import Any
 
-from props.c23_ir import BINOPS, EXACT_BINOPS, FBINOPS, OVF_BINOPS, f64_bits, is_int, round32, size_of, width
+from props.c23_ir import BINOPS, EXACT_BINOPS, FBINOPS, FLOAT_FORMATS, OVF_BINOPS, bits_f64, f64_bits, fbits, fval, \
+    is_int, round32, size_of, width
 
 INT_TYS = ["i1", "i8", "i16", "i32", "i64"]
 FLOAT_TYS = ["f32", "f64"]
@@ -47,7 +48,9 @@ def rand_float_bits(rng: random.Random, ty: str) -> int:
     else:
         if ty == "f32":
             return rng.getrandbits(32)
-        return rng.getrandbits(64)
+        return rng.getrandbits(FLOAT_FORMATS[ty][0])
+    if ty in ("f16", "bf16"):
+        return fbits(ty, x)
     if ty == "f32":
         try:
             return struct.unpack("<I", struct.pack("<f", x))[0]
@@ -57,9 +60,16 @@ def rand_float_bits(rng: random.Random, ty: str) -> int:
 
 
 class Gen:
-    def __init__(self, rng: random.Random, size: int = 1):
+    def __init__(self, rng: random.Random, size: int = 1, float_tys: list[str] | None = None,
+                 sig_tys: list[str] | None = None):
+        """`float_tys`: the float formats values may have (default: the two the Lean model knows);
+        `sig_tys`: types of the function's parameters and result (default: all).  With the defaults the
+        random draws are exactly those of the original generator."""
         self.rng = rng
         self.size = size
+        self.float_tys = list(float_tys or FLOAT_TYS)
+        self.sig_tys = sig_tys
+        self.wide = self.float_tys != FLOAT_TYS
         self.next_id = 0
         self.blocks: list[dict[str, Any]] = []
 
@@ -133,8 +143,10 @@ class Gen:
                 x = struct.unpack("<f", struct.pack("<I", b))[0]
                 if x == x and rng.random() < 0.15:
                     x = x * 1.0000001 if abs(x) < 1e30 else x   # a double that is not a float32: rounded on emission
-            else:
+            elif ty == "f64":
                 x = struct.unpack("<d", struct.pack("<Q", b))[0]
+            else:
+                x = fval(ty, b)
             ops.append(["fconst", r, ty, f64_bits(x)])
         return r
 
@@ -175,20 +187,20 @@ class Gen:
             ops.append(["icmp", r, rng.randrange(10), ty, a, b])
             avail.setdefault("i1", []).append(r)
         elif k == "fbin":
-            ty = rng.choice(FLOAT_TYS)
+            ty = rng.choice(self.float_tys)
             a, b = self.pick(ops, avail, ty), self.pick(ops, avail, ty)
             r = self.fresh()
             ops.append(["fbin", rng.choice(FBINOPS[:4] * 3 + FBINOPS[4:]), r, ty, a, b])
             avail.setdefault(ty, []).append(r)
         elif k == "fcmp":
-            ty = rng.choice(FLOAT_TYS)
+            ty = rng.choice(self.float_tys)
             a = self.pick(ops, avail, ty, 0.1)
             b = a if rng.random() < 0.2 else self.pick(ops, avail, ty)
             r = self.fresh()
             ops.append(["fcmp", r, rng.choice(list(range(1, 15)) * 6 + [0, 15]), ty, a, b])
             avail.setdefault("i1", []).append(r)
         elif k == "fneg":
-            ty = rng.choice(FLOAT_TYS)
+            ty = rng.choice(self.float_tys)
             a = self.pick(ops, avail, ty)
             r = self.fresh()
             ops.append(["fneg", r, ty, a])
@@ -201,10 +213,20 @@ class Gen:
             elif kk in ("zext", "sext"):
                 ft = rng.choice(INT_TYS[:-1])
                 tt = rng.choice([t for t in INT_TYS if width(t) > width(ft)])
+            elif kk == "bitcast" and self.wide:
+                f = rng.choice(self.float_tys)
+                i = "i%d" % FLOAT_FORMATS[f][0]
+                ft, tt = (i, f) if rng.random() < 0.5 else (f, i)
             elif kk == "bitcast":
                 ft, tt = rng.choice([("i32", "f32"), ("f32", "i32"), ("i64", "f64"), ("f64", "i64")])
             elif kk == "sitofp":
-                ft, tt = rng.choice(INT_TYS), rng.choice(FLOAT_TYS)
+                ft, tt = rng.choice(INT_TYS), rng.choice(self.float_tys)
+                if tt in ("f16", "bf16"):   # (wider integers reach a 16-bit format through two roundings)
+                    ft = rng.choice(["i1", "i8", "i16"])
+            elif self.wide:   # fpext: to a format that holds every value of the source format, and is wider
+                pairs = [(a, b) for a in self.float_tys for b in self.float_tys
+                         if FLOAT_FORMATS[a][0] < FLOAT_FORMATS[b][0]]
+                ft, tt = rng.choice(pairs) if pairs else ("f32", "f64")
             else:
                 ft, tt = "f32", "f64"
             a = self.pick(ops, avail, ft)
@@ -214,14 +236,14 @@ class Gen:
             ops.append(["cast", kk, r, ft, tt, a, ovf, nn])
             avail.setdefault(tt, []).append(r)
         elif k == "select":
-            ty = rng.choice(INT_TYS + FLOAT_TYS)
+            ty = rng.choice(INT_TYS + self.float_tys)
             c = self.pick(ops, avail, "i1", 0.05)
             a, b = self.pick(ops, avail, ty), self.pick(ops, avail, ty)
             r = self.fresh()
             ops.append(["select", r, ty, c, a, b])
             avail.setdefault(ty, []).append(r)
         elif k == "alloca":
-            elem = rng.choice(INT_TYS + FLOAT_TYS)
+            elem = rng.choice(INT_TYS + self.float_tys)
             n = rng.choice([1, 1, 2, 3, 4])
             st = rng.choice(["i32", "i64"])
             s = self.const(ops, st, n)
@@ -262,14 +284,14 @@ class Gen:
                     self.next_id -= 1
             elif r < 0.65:
                 ty = elem
-                if elem not in ("i1",) and rng.random() < 0.15 and p["idx"] is not None:   # narrower access (little endian)
+                if elem not in ("i1",) and rng.random() < 0.15 and p["idx"] is not None and not self.wide:   # narrower access (little endian)
                     ty = rng.choice([t for t in ["i8", "i16", "i32", "i64", "f32", "f64"] if size_of(t) <= size_of(elem)])
                 v = self.fresh()
                 ops.append(["load", v, ty, p["id"]])
                 avail.setdefault(ty, []).append(v)
             else:
                 ty = elem
-                if elem not in ("i1",) and rng.random() < 0.15 and p["idx"] is not None:
+                if elem not in ("i1",) and rng.random() < 0.15 and p["idx"] is not None and not self.wide:
                     ty = rng.choice([t for t in ["i8", "i16", "i32", "i64", "f32", "f64"] if size_of(t) <= size_of(elem)])
                 ops.append(["store", ty, self.pick(ops, avail, ty), p["id"]])
 
@@ -311,16 +333,17 @@ class Gen:
         rng = self.rng
         self.make_cfg()
         n, succ, dom = self.n, self.succ, self.dom
-        tys = INT_TYS * 2 + FLOAT_TYS
+        tys = INT_TYS * 2 + self.float_tys
+        sig = self.sig_tys or tys
         nparams = rng.randint(1, 4)
-        argtys: list[list[str]] = [[rng.choice(tys) for _ in range(nparams)]]
+        argtys: list[list[str]] = [[rng.choice(sig) for _ in range(nparams)]]
         for _ in range(1, n):
             argtys.append([rng.choice(tys) for _ in range(rng.choice([0, 0, 1, 1, 2, 3]))])
         ctr_ty = None
         if self.loop:
             ctr_ty = rng.choice(["i8", "i32", "i64"])
             argtys[self.loop[0]] = [ctr_ty] + argtys[self.loop[0]]
-        ret_ty = rng.choice(tys)
+        ret_ty = rng.choice(sig)
         args = [[[self.fresh(), t] for t in ts] for ts in argtys]
         avail_out: list[dict[str, list[int]]] = [dict() for _ in range(n)]
         ptrs_out: list[list[dict]] = [[] for _ in range(n)]
